@@ -119,7 +119,7 @@ fn classify(o: &mut CaseOut, who: &str, obs: &[Item], m: &Model, src: &[usize], 
                     return;
                 }
             }
-            o.viol(&format!("{who}:not-a-depth-first-preorder-of-the-reachable-set"), format!("{why}; observed {obs:?}"));
+            o.viol(&format!("{who}:not-a-depth-first-preorder-of-the-reachable-set"), crate::ctx::clip(&format!("{why}; observed {obs:?}")));
         }
     }
 }
@@ -192,8 +192,9 @@ fn check_dfs<D: Order + OutNeighbors>(d: &D, m: &Model, src: &[usize], o: &mut C
 
 pub fn case(idx: u64, seed: u64, p: &Params, o: &mut CaseOut) {
     let mut r = Rng::for_case(6, seed, idx);
-    let (m, src, fam) = c04::gen_case(&mut r, p.usize("max_order", 20));
-    let ty = r.below(5);
+    let huge = c04::is_huge_case(idx, p);
+    let (m, src, fam) = if huge { c04::huge_path(&mut r) } else { c04::gen_case(&mut r, p.usize("max_order", 20)) };
+    let ty = if huge { r.below(2) } else { r.below(5) };
     match ty {
         0 => check_dfs(&AdjacencyList::build(&m), &m, &src, o),
         1 => check_dfs(&AdjacencyMap::build(&m), &m, &src, o),
